@@ -3,8 +3,14 @@
 //!                             i2 spot btc/usdc (same base, other quote),
 //!                             i3 spot eth/usdt (same quote, other base)
 //!   exchange 1 = Kraken:      i4 spot btc/usdt
-//! so that exchange-, instrument- and underlying-filters all select different sets.
-//! Asset indices: 0 btc@0, 1 eth@0, 2 usdc@0, 3 usdt@0, 4 btc@1, 5 usdt@1.  `assert_layout` checks this.
+//!   exchange 2 = Okx:         i5 spot btc/usdt
+//! so that exchange-, instrument- and underlying-filters all select different sets, and - with THREE
+//! exchanges - a by-exchange filter can name non-adjacent exchanges ({0, 2}), an exchange "in the
+//! middle" can lack its execution link, and an index that is off by one still names an exchange.
+//! Asset indices: 0 btc@0, 1 eth@0, 2 usdc@0, 3 usdt@0, 4 btc@1, 5 usdt@1, 6 btc@2, 7 usdt@2 (asset
+//! indices are per exchange: the underlyings of i0, i4 and i5 are three different ones).
+//! `assert_layout` checks all of this.  (Okx sorts after Kraken in `ExchangeId`, "f_.." after "e_..":
+//! the third exchange was appended without shifting any earlier exchange / instrument / asset index.)
 use barter::engine::state::{
     EngineState, global::DefaultGlobalData, instrument::data::DefaultInstrumentMarketData,
     trading::TradingState,
@@ -24,15 +30,19 @@ use rust_decimal::Decimal;
 
 pub type State = EngineState<DefaultGlobalData, DefaultInstrumentMarketData>;
 
-pub const EXCHANGES: [ExchangeId; 2] = [ExchangeId::BinanceSpot, ExchangeId::Kraken];
-pub const N_INST: usize = 5;
+pub const N_EX: usize = 3;
+pub const EXCHANGES: [ExchangeId; N_EX] = [ExchangeId::BinanceSpot, ExchangeId::Kraken, ExchangeId::Okx];
+pub const N_INST: usize = 6;
 /// exchange index of each instrument index
-pub const EX_OF: [usize; 5] = [0, 0, 0, 0, 1];
+pub const EX_OF: [usize; N_INST] = [0, 0, 0, 0, 1, 2];
 /// first asset index of each exchange (used for balance events)
-pub const FIRST_ASSET: [usize; 2] = [0, 4];
+pub const FIRST_ASSET: [usize; N_EX] = [0, 4, 6];
+/// an exchange index no exchange of this world has (requests naming it are unrecoverable send errors)
+pub const UNKNOWN_EX: i64 = N_EX as i64;
 
 pub fn instruments() -> IndexedInstruments {
     IndexedInstruments::builder()
+        .add_instrument(Instrument::spot(ExchangeId::Okx, "f_okx_btc_usdt", "BTC-USDT", Underlying::new("btc", "usdt"), None))
         .add_instrument(Instrument::spot(ExchangeId::Kraken, "e_kraken_btc_usdt", "XBT/USDT", Underlying::new("btc", "usdt"), None))
         .add_instrument(Instrument::spot(ExchangeId::BinanceSpot, "d_binance_eth_usdt", "ETHUSDT", Underlying::new("eth", "usdt"), None))
         .add_instrument(Instrument::spot(ExchangeId::BinanceSpot, "c_binance_btc_usdc", "BTCUSDC", Underlying::new("btc", "usdc"), None))
@@ -61,12 +71,18 @@ pub fn engine_state(trading: TradingState) -> State {
 
 pub fn assert_layout(st: &State) {
     let names: Vec<String> = st.instruments.0.keys().map(|k| k.to_string()).collect();
-    assert_eq!(names, ["a_binance_btc_usdt", "b_binance_btc_usdt_perp", "c_binance_btc_usdc", "d_binance_eth_usdt", "e_kraken_btc_usdt"], "world2 layout");
+    assert_eq!(names, ["a_binance_btc_usdt", "b_binance_btc_usdt_perp", "c_binance_btc_usdc", "d_binance_eth_usdt", "e_kraken_btc_usdt", "f_okx_btc_usdt"], "world2 layout");
+    let exchanges: Vec<ExchangeId> = st.connectivity.exchanges.keys().copied().collect();
+    assert_eq!(exchanges, EXCHANGES, "world2 exchanges");
     for (i, (_, is)) in st.instruments.0.iter().enumerate() {
         assert_eq!(is.instrument.exchange.index(), EX_OF[i], "world2 exchange of instrument {i}");
     }
     assert_eq!(st.instruments.0[0].instrument.underlying, st.instruments.0[1].instrument.underlying);
-    assert_eq!(st.assets.0.len(), 6);
+    assert_eq!(st.assets.0.len(), 8);
+    // btc/usdt on three exchanges: three different underlyings (asset indices are per exchange)
+    assert_ne!(st.instruments.0[0].instrument.underlying, st.instruments.0[4].instrument.underlying);
+    assert_ne!(st.instruments.0[0].instrument.underlying, st.instruments.0[5].instrument.underlying);
+    assert_ne!(st.instruments.0[4].instrument.underlying, st.instruments.0[5].instrument.underlying);
     assert_ne!(st.instruments.0[0].instrument.underlying, st.instruments.0[2].instrument.underlying);
     assert_eq!(st.instruments.0[0].instrument.underlying.base, st.instruments.0[2].instrument.underlying.base);
     assert_eq!(st.instruments.0[0].instrument.underlying.quote, st.instruments.0[3].instrument.underlying.quote);
